@@ -356,3 +356,17 @@ func verifLemmaUint32RoundTrip(schema *schema_j5pb.Field, pv protoreflect.Value)
 //@ func (*mapOfEnumField).SetEnum
 //@   ensures rejected: (forall i int {field.itemSchema.Options[i]} :: 0 <= i && i < len(field.itemSchema.Options) ==> !optNamed(field.itemSchema.Options[i], value, field.itemSchema.NamePrefix)) ==> result != nil
 //@   assert at setKey#0 number: option != nil && optNamed(option, value, field.itemSchema.NamePrefix) && arg1 == key && pvValid(arg2) && pvNum(arg2) == option.number
+
+// ---- object members (C03): unknown names and repeated members are rejected ---------------------------
+// A property knows whether it already holds a value; creating the value twice is an error (a JSON
+// object with a repeated member is rejected, never last-one-wins). A property's own well-formedness
+// (what buildValue requires of it) is established where property sets are made (newMessage): ASSUMED
+// here, not an obligation of the codec.
+//@ func (*propSet).GetProperty
+//@   ensures unknown: !has(fs.asMap, name) ==> result1 != nil
+//@   ensures known: has(fs.asMap, name) ==> result1 == nil && typeis(result0, *property) && as(*property, result0) == fs.asMap[name]
+//@ func (*property).CreateField
+//@   free requires p != nil && p.propSet != nil && (p.propSet.value == nil || msgValid(p.propSet.value)) && p.schema != nil && leafItems(p.schema) && scalarsOK(p.schema)
+//@   free requires forall i int :: 0 <= i && i < len(p.protoPath) ==> p.protoPath[i] != nil
+//@   ensures repeated: old(p.hasValue) ==> result1 != nil && result0 == nil
+//@   ensures marked: result1 == nil ==> p.hasValue && p.value == result0
